@@ -56,7 +56,7 @@ def run(ctx):
         big = (not ctx.quick) and w >= 3
         r_ops, w_ops = cachesys.gen_workload(ctx.rng, nmetrics=5 if big else 3, nts=4 if big else 2,
                                              nstores=ctx.pick(5, 7 if big else 5), ndrains=3,
-                                             nqueries=0, ticks=(st == 'timesorted'))
+                                             nqueries=2, ticks=(st == 'timesorted'))       # cache queries (single and bulk) interleaved with stores and drains
         cfg = dict(strategy=st, max=(ctx.rng.choice([2, 3]) if w % 2 == 1 else None), flow=False, lag=lag)   # every second workload: bounded cache (refusals)
         expl.append((cfg, r_ops, w_ops, ctx.pick(1, 2), ctx.pick(40, 200), ctx.pick(150, 1200)))
   mods, col, verdicts = cachecheck.run_plan(ctx, 'C17', models, sims, expl)
